@@ -11,4 +11,22 @@ CHECKS = {
             "the specification's post-state (start/stop time, rate, length, origin of each retained sample, contains()).",
             TB, "DESIGN.md §4 C01"),
 }
+CHECKS["C02"] = (
+    "TLA+ spec Pipeline.tla (FreqSlice/TFSlice/StokesItem actions; invariants LabelsKept, LabelsInBand) model-checked by TLC "
+    "+ replay of TLC-generated channel-selection behaviours on real radio signals with exact-rational label comparison",
+    "TLC checks that labels follow the band model and that every (nested, combined) channel selection keeps the selected "
+    "labels, for all nchan<=6 (8 thorough), alignments and a:b in range; the one structural conflict (stepped baseband "
+    "time+frequency slice) is named in the spec, shown reachable by a negative config and listed as a known finding. "
+    "Generated behaviours are replayed on all radio classes over decades of cf/cbw/units; labels, cf, cbw, align, band edges "
+    "and the origin of each retained channel are compared with the spec.",
+    TB, "DESIGN.md §4 C02")
+CHECKS["C16"] = (
+    "TLA+ spec Contract.tla (constructor-argument catalogue, Build transcribed from __init__/setters vs declarative contract) "
+    "model-checked by TLC; every generated constructor call, assignment and copy replayed on the real classes; contract "
+    "checker applied to every result of TLC-generated Pipeline behaviours",
+    "TLC enumerates every constructor call that deviates from a valid call in up to 2 (3 thorough) arguments over a "
+    "catalogue of valid/invalid kinds (shapes, 15 dtypes, rates, times, meta, cf, cbw, align, pol) and checks accept/refuse "
+    "against the declarative contract; each case is replayed on the real constructors (NumPy and Dask), setters, like(), "
+    "pickle/cloudpickle and the Dask helpers, and the contract is evaluated on every object produced by generated pipelines.",
+    TB, "DESIGN.md §4 C16")
 NA = {}
